@@ -5,6 +5,7 @@
 #include <sys/stat.h>
 #include <signal.h>
 #include <poll.h>
+#include <sys/time.h>
 #include <fcntl.h>
 #include <time.h>
 #include <errno.h>
@@ -25,6 +26,9 @@ static const char *BUILD =
 
 static Scenario *find_scn(const std::string &n) { for (auto &s : registry()) if (s.name == n || s.property == n) return &s; return nullptr; }
 
+// watchdog in CPU time of the process (ITIMER_PROF), not wall-clock: an endless loop burns CPU and is caught, a machine under load cannot fake one
+static void on_alarm(int);
+static void arm(int sec) { struct itimerval it; it.it_interval.tv_sec = 0; it.it_interval.tv_usec = 0; it.it_value.tv_sec = sec; it.it_value.tv_usec = 0; signal(SIGPROF, on_alarm); setitimer(ITIMER_PROF, &it, nullptr); }
 static void on_alarm(int) { const char m[] = "\nCOSIM-HANG: operation did not terminate\n"; (void)!write(2, m, sizeof m - 1); _exit(79); }
 
 // ---------------------------------------------------------------- crash signature from sanitizer output
@@ -83,7 +87,7 @@ static EvalResult eval_child(Scenario &sc, const Plan &p, bool verbose = false) 
     pid_t pid = fork();
     if (pid == 0) {
         close(fd[0]); int ef = open(errf.c_str(), O_WRONLY | O_CREAT | O_TRUNC, 0644); if (ef >= 0) { dup2(ef, 2); close(ef); }
-        signal(SIGALRM, on_alarm); alarm(3 * TSCALE);
+        arm(3 * TSCALE);
         Cov cov; Verdict v = run_scn(sc, p, cov, verbose);
         std::string out = std::string(v.ok ? "1" : "0") + "\n" + v.sig + "\n" + std::to_string(v.op) + "\n" + std::to_string(v.loghash) + "\n" + v.detail + "\n";
         (void)!write(fd[1], out.data(), out.size()); fflush(stdout); _exit(0);
@@ -188,7 +192,7 @@ static int cmd_replay(int argc, char **argv) {
     if (p.build != BUILD) { fprintf(stderr, "replay file is for build %s, this is build %s\n", p.build.c_str(), BUILD); return 2; }
     Scenario *sc = find_scn(p.scenario); if (!sc) { fprintf(stderr, "unknown scenario %s\n", p.scenario.c_str()); return 2; }
     Verdict v;
-    if (inproc) { signal(SIGALRM, on_alarm); alarm(20 * TSCALE); Cov cov; v = run_scn(*sc, p, cov, verbose); }   // for gdb; sanitizer reports end the process
+    if (inproc) { arm(20 * TSCALE); Cov cov; v = run_scn(*sc, p, cov, verbose); }   // for gdb; sanitizer reports end the process
     else { mkdir(outdir.c_str(), 0755); g_tmpdir = outdir; fflush(stdout); if (verbose) { Cov c; } EvalResult r = eval_child(*sc, p, verbose); v = r.v; }
     if (v.ok) { printf("REPLAY ok loghash=%llu\n", (unsigned long long)v.loghash); return 0; }
     printf("REPLAY VIOLATION property=%s sig=%s op=%d loghash=%llu\n  %s\n", p.property.c_str(), v.sig.c_str(), v.op, (unsigned long long)v.loghash, v.detail.substr(0, 900).c_str());
@@ -219,7 +223,6 @@ static int cmd_run(int argc, char **argv) {
             close(fd[0]); for (auto &o : wk) if (o.fd >= 0) close(o.fd);
             std::string errf = g_tmpdir + "/w" + std::to_string(w) + "." + std::to_string(wk[(size_t)w].inc) + ".err";
             int ef = open(errf.c_str(), O_WRONLY | O_CREAT | O_TRUNC, 0644); if (ef >= 0) { dup2(ef, 2); close(ef); }
-            signal(SIGALRM, on_alarm);
             FILE *pf = fdopen(fd[1], "w"); Cov cov; std::string covf = g_tmpdir + "/w" + std::to_string(w) + "." + std::to_string(wk[(size_t)w].inc) + ".cov"; uint64_t k = 0;
             for (uint64_t i = wk[(size_t)w].next; i < runs; i += (uint64_t)jobs) {
                 fprintf(pf, "B %llu\n", (unsigned long long)i); fflush(pf);
@@ -227,13 +230,13 @@ static int cmd_run(int argc, char **argv) {
                 std::vector<Plan> vs{p}; bool swept = false;
                 for (uint32_t vi = 0; vi < vs.size(); vi++) {
                     if (vi) { fprintf(pf, "V %llu %u\n", (unsigned long long)i, vi); fflush(pf); }
-                    alarm(5 * TSCALE);
+                    arm(5 * TSCALE);
                     Verdict v = run_scn(*sc, vs[vi], cov, false);
-                    alarm(0);
+                    arm(0);
                     fprintf(pf, "R %llu %u %llu %llu %d %s\n", (unsigned long long)i, vi, (unsigned long long)plan_hash(vs[vi]), (unsigned long long)v.loghash, v.ok ? 1 : 0, v.ok ? "-" : v.sig.c_str());
                     if (!v.ok) break;                       // a failing base or clean plan is not swept
                     if (sc->sweep && vi == 0) vs.push_back(sc->clean ? sc->clean(p) : p);
-                    else if (sc->sweep && vi == 1 && !swept) { swept = true; alarm(5); auto e = sc->sweep(p); alarm(0); vs.insert(vs.end(), e.begin(), e.end()); }
+                    else if (sc->sweep && vi == 1 && !swept) { swept = true; arm(5 * TSCALE); auto e = sc->sweep(p); arm(0); vs.insert(vs.end(), e.begin(), e.end()); }
                 }
                 if (++k % 1000 == 0) { cov_write(cov, covf); fflush(pf); }
             }
